@@ -262,7 +262,7 @@ def run(rep, tier_, rng):
         if time.time() - t0 > gen_budget:
             stats["skipped_for_time"] = n_prob - n; break
         spec = g_problem(rng, tier_)
-        prec = rng.choice(precs)
+        prec = rng.choice(precs) if rng.random() < 0.65 else rng.randint(24, 128 if q else 210)
         cid = "o%03d" % n
         call = {"fn": "odefun", "regime": spec["prob"], "kclass": spec["prob"], "kfclass": kfclass_of(spec, prec), "prec": prec, "spec": spec,
                 "sub_seed": rng.getrandbits(32)}
@@ -297,7 +297,7 @@ def run(rep, tier_, rng):
                    budget=max(30, (115 if q else 1100) - tgen), jobs=10,
                    rule="each evaluation = one ODE problem (y'=ay; harmonic oscillator; y'=-y^2; y'=1+y^2; cosh/sinh system; y'=-2xy; y'=P(x); "
                         "triangular system; decoupled pair) with rational parameters solved by odefun of the current /repo code at p in "
-                        "{30,53,100(,200)} (default tol, 20% with an explicit tol), evaluated at ~8 dyadic points (+ up to 4 segment boundaries) "
+                        "{30,53,100(,200)} or (35%) uniform in [24,128] (default tol, 20% with an explicit tol), evaluated at ~8 dyadic points (+ up to 4 segment boundaries) "
                         "by 4 fresh interpolants: increasing / decreasing / random order with repeats / increasing with evaluations at other "
                         "precisions interleaved; accuracy lemmas for 3-7 points x all components, one bitwise-equality lemma per re-ordered run; "
                         "distinct = distinct lemma statements; non-trivial = every Interval lemma and every equality lemma",
